@@ -43,7 +43,7 @@ def do_import(prop, src, name):
     print("imported", dst)
 
 
-def run_one(name, with_tests, tier):
+def run_one(name, with_tests, tier, no_checks=False):
     d = os.path.join(SEEDED, name)
     meta = json.load(open(os.path.join(d, "meta.json")))
     tmp = tempfile.mkdtemp(prefix="vf-seeded-")
@@ -79,6 +79,9 @@ def run_one(name, with_tests, tier):
             r = sh(["python3", os.path.join(HERE, "baseline.py"), dst])
             out["own_tests"] = r.stdout.strip().splitlines()[:3]
             out["own_tests_pass"] = r.returncode == 0
+        if no_checks:
+            out["caught"] = meta.get("ran", {}).get("caught")
+            return out
         res = {}
         for prop in meta.get("checks", [meta["property"]]):
             env2 = dict(os.environ, VERIF_REPO=dst, VERIF_EVIDENCE_DIR=os.path.join(tmp, "ev"))
@@ -101,6 +104,8 @@ def main():
         return do_import(a[1], a[2], a[3])
     a = a[1:] if a and a[0] == "run" else a
     with_tests = "--tests" in a
+    no_checks = "--no-checks" in a
+    a = [x for x in a if x != "--no-checks"]
     tier = "quick"
     if "--tier" in a:
         tier = a[a.index("--tier") + 1]
@@ -111,7 +116,7 @@ def main():
     for n in names:
         if not os.path.exists(os.path.join(SEEDED, n, "meta.json")):
             continue
-        o = run_one(n, with_tests, tier)
+        o = run_one(n, with_tests, tier, no_checks)
         st = "CAUGHT" if o.get("caught") else "MISSED"
         if not o.get("caught"):
             missed += 1
